@@ -51,11 +51,13 @@ def _impl(tier, seed, search):
     PI = math.pi
     for i in range(n):
         o = ORD[i % 6]
-        a = np.array([float(g.uniform(-PI, PI)), sing_angle(g, [PI / 2, -PI / 2]), float(g.uniform(-PI, PI))])
+        def outer_angle():          # roll / yaw: exact special values a third of the time
+            return float(g.choice([0.0, PI / 2, -PI / 2, PI, -PI, PI / 4])) if g.random() < 0.33 else float(g.uniform(-PI, PI))
+        a = np.array([outer_angle(), sing_angle(g, [PI / 2, -PI / 2]), outer_angle()])
         # --- constructors follow the documented orders ------------------------------------------
         L.close(f'rpy2r-order-{o}', b.rpy2r(a, order=o), fwd_rpy(a, o), 1e-12, 1.0, dict(angles=a, order=o))
         L.close('rpy2r-deg', b.rpy2r(np.degrees(a), order=o, unit='deg'), b.rpy2r(a, order=o), 1e-12, 1.0, dict(angles=a, order=o))
-        e = np.array([float(g.uniform(-PI, PI)), sing_angle(g, [0.0, PI, -PI]), float(g.uniform(-PI, PI))])
+        e = np.array([outer_angle(), sing_angle(g, [0.0, PI, -PI]), outer_angle()])
         L.close('eul2r-order', b.eul2r(e), fwd_eul(e), 1e-12, 1.0, dict(angles=e))
         # --- rpy round trip ---------------------------------------------------------------------
         R = fwd_rpy(a, o)
@@ -118,6 +120,20 @@ def _impl(tier, seed, search):
                 nv = float(np.linalg.norm(x[1]))
                 L.check('UQ.angvec-range', -1e-12 <= float(x[0]) <= PI + 1e-9, dict(inpa, q=sgn * qa), 'UnitQuaternion.angvec(): rotation angle outside [0, pi]', observed=float(x[0]), sig='UQ.angvec-range')
                 L.close('UQ.angvec-roundtrip', inputs.rodrigues(x[1] / nv, x[0]) if nv > 0 else np.eye(3), Ra, TOL, 1.0, dict(inpa, q=sgn * qa))
+        # exactly symmetric half turns (zero skew part): diagonal ones and 2aa' - I about axes inside a coordinate plane
+        if i % 6 == 0:
+            halves = [np.diag([1.0, -1, -1]), np.diag([-1.0, 1, -1]), np.diag([-1.0, -1, 1])]
+            for a_ in ([0, 1, 1], [1, 0, 1], [1, 1, 0], [0, 3, 4], [0, -1, 2], [1, 2, 2]):
+                a_ = np.array(a_, float) / np.linalg.norm(a_); H_ = 2 * np.outer(a_, a_) - np.eye(3); halves.append((H_ + H_.T) / 2)
+            for H_ in halves:
+                for cname, f_ in (('tr2angvec', lambda: b.tr2angvec(H_)), ('SO3.angvec', lambda: SO3(H_, check=False).angvec()), ('UQ.angvec', lambda: UnitQuaternion(SO3(H_, check=False)).angvec())):
+                    ok, x = L.noraise(f'{cname}(half turn)', f_, dict(R=H_), f'{cname} of an exactly symmetric half turn')
+                    if ok:
+                        good_ = x[1] is not None and np.all(np.isfinite(np.r_[x[0], x[1]]))
+                        L.check('angvec:finite', good_, dict(R=H_), f'{cname} returns a non-finite angle / axis for an exactly symmetric half turn', sig='angvec:nonfinite:halfturn', observed=repr(x)[:100])
+                        if good_:
+                            nv = float(np.linalg.norm(x[1]))
+                            L.close('angvec-roundtrip(half turn)', inputs.rodrigues(np.asarray(x[1], float) / nv, float(x[0])), H_, TOL, 1.0, dict(R=H_), sig='angvec-roundtrip:halfturn')
         # --- planar -----------------------------------------------------------------------------
         xyt = np.r_[g.normal(size=2) * 10.0 ** g.uniform(-3, 3), sing_angle(g, [0.0, PI, PI / 2])]
         if xyt[2] > PI: xyt[2] -= 2 * PI
